@@ -37,6 +37,7 @@ class EWorld:
     balances: dict = field(default_factory=dict)  # addr -> int | None (symbolic)
     options: dict = field(default_factory=dict)
     block: dict | None = None
+    symbolic_storage: tuple = ()  # accounts whose initial storage is symbolic (svm.enableSymbolicStorage)
 
     def describe(self):
         return dict(accounts={hex(a): c.hex() for a, c in self.accounts.items()}, target=hex(self.target),
@@ -234,6 +235,8 @@ def build_exec(w: EWorld, inp: Inputs, sevm, solver, setup=None):
         aa = con_addr(a)
         code[aa] = Contract(c)
         storage[aa] = sevm.mk_storagedata()
+        if a in w.symbolic_storage:
+            storage[aa].symbolic = True
         transient[aa] = sevm.mk_storagedata()
     block = hmain.mk_block()
     if w.block:
@@ -471,6 +474,8 @@ class ConcreteModel:
                     reps.append((c, z3.BitVecVal(0, c.size())))
                 elif z3.is_bool(c):
                     reps.append((c, z3.BoolVal(False)))
+                elif z3.is_array(c) and z3.is_bv_sort(c.sort().range()):
+                    reps.append((c, z3.K(c.sort().domain(), z3.BitVecVal(0, c.sort().range().size()))))
             if reps:
                 r = z3.simplify(z3.substitute(r, *reps))
         return r
@@ -705,6 +710,31 @@ def compare_frames(m, hctx, rf: Frame, path="top", out=None, relax=None):
     if len(hel) != len(rel) and not out:
         out.append(("trace-shape", f"{path}: {len(hel)} trace elements vs reference {len(rel)}"))
     return out
+
+
+def initial_reads(m, ctx, sym_addrs, out=None, written=None, consts=None):
+    """for accounts with symbolic initial storage: the value (under model m) halmos returned for the first read of every
+    slot that was not written before in the path; `consts` collects reads whose value term is a literal constant"""
+    from halmos.sevm import CallContext, StorageRead, StorageWrite
+
+    out = {} if out is None else out
+    written = set() if written is None else written
+    consts = [] if consts is None else consts
+    for el in ctx.trace:
+        if isinstance(el, CallContext):
+            initial_reads(m, el, sym_addrs, out, written, consts)
+        elif isinstance(el, (StorageRead, StorageWrite)) and not el.transient:
+            a, sl = ev_int(m, el.address), ev_int(m, el.slot)
+            if a not in sym_addrs:
+                continue
+            if isinstance(el, StorageWrite):
+                written.add((a, sl))
+            elif (a, sl) not in written and (a, sl) not in out:
+                out[(a, sl)] = ev_int(m, el.value)
+                t = to_z3(el.value)
+                if isinstance(t, int) or (t is not None and not isinstance(t, bytes) and z3.is_bv_value(z3.simplify(t))):
+                    consts.append((a, sl, out[(a, sl)]))
+    return out, consts
 
 
 def created_addresses(m, ctx, out=None):
